@@ -22,7 +22,7 @@ PROPERTY = {
                '!path': 'file / parent(n), n in 0..4 / cwd / abs, written in a file reached directly, via include from another directory, via nested include'},
     'outside': ['real file systems', '!rec', 'more than 3 files / include nesting deeper than 2'],
     'per_split_timeout': {'quick': 600, 'thorough': 1800},
-    'wall_budget': {'quick': 900, 'thorough': 3400},
+    'wall_budget': {'quick': 1500, 'thorough': 7000},
 }
 
 
